@@ -169,7 +169,11 @@ def verus_job(ctx, res):
     f.replace("let _ = fs::create_dir_all(root.join(FRAGMENT_DIR));", "vp_create_dir_all_fragments(root);", rule="O14")
     f.sub(r"fs::read_to_string\(root\.join\(MANIFEST\)\)\s*\.ok\(\)\s*\.and_then\(\|x\| toml::from_str::<Manifest>\(&x\)\.ok\(\)\)",
           "vp_read_manifest(root, Tracked(fs))", count=1, rule="O14")
-    f.replace("manifest.global_key == global_key", "vp_str_eq(&manifest.global_key, global_key)", rule="O13")
+    # O11: `let v = E.is_some_and(|x| B);` desugared to the std definition `match E { Some(x) => B, None => false }` (only if the
+    # construct is there; Verus has no spec for is_some_and and a closure would need a hand-written contract)
+    f.sub_opt(r"=\s*([\w\s\.\(\)&]+?)\s*\.is_some_and\(\|(\w+)\| ([^;\n]*?)\);", r"= match \1 { Some(\2) => \3, None => false };", rule="O11 is_some_and desugared")
+    # O13: every `<path>.global_key == global_key` (String == &str), wherever the body compares the key
+    f.sub(r"\b([\w\.]+)\.global_key == global_key\b", r"vp_str_eq(&\1.global_key, global_key)", count=None, rule="O13")
     f.sub(r"log::debug!\([^;]*\);", "", count=1, rule="E6 log::debug! statements dropped")
     f.replace("root.to_path_buf()", "vp_to_path_buf(root)", rule="O14")
     f.spec("""    requires laws(),
